@@ -23,7 +23,10 @@ func (s *sharedEntryAttributes) NavigateLeafRef(ctx context.Context) ([]Entry, e
 		return nil, fmt.Errorf("error not a leafref %s", s.Path().String())
 	}
 
-	lv := s.leafVariants.GetHighestPrecedence(false, true)
+	lv := s.leafVariants.GetHighestPrecedenceRemaining()
+	if lv == nil {
+		return nil, fmt.Errorf("error no value present for %s", s.Path().String())
+	}
 
 	lref, err := utils.StripPathElemPrefix(lref)
 	if err != nil {
@@ -210,7 +213,8 @@ func (s *sharedEntryAttributes) validateLeafRefs(ctx context.Context, resultChan
 	}
 
 	// Only if the value remains, even after the SetIntent made it through, the LeafRef can be considered resolved.
-	if !entry[0].remainsToExist() {
+	// (a referenced entry that is deleted on the device does not remain, even though its running value is still loaded)
+	if !entry[0].remainsToExist() || entry[0].shouldDelete() {
 		lv := s.leafVariants.GetHighestPrecedence(false, true)
 		EntryPath, _ := s.SdcpbPath()
 
